@@ -1,0 +1,9 @@
+//go:build verif
+
+package plugin
+
+import "github.com/hashicorp/go-plugin/internal/verifhook"
+
+// VerifSetHook installs a handler called at every verifhook.Point site. It
+// exists only under the "verif" build tag, for external runtime monitors.
+func VerifSetHook(f func(name string, id uint32)) { verifhook.Set(f) }
